@@ -1,70 +1,16 @@
-(* C07 -- reciprocal_exact, divisor_faithful, coef_error_bound (see proofs/QuantCert.v for the algebra) *)
+(* C07 -- reciprocal_exact, divisor_faithful, coef_error_bound (algebra in proofs/QuantCert.v and proofs/QuantAlg.v) *)
 From Coq Require Import List ZArith Lia Bool ZifyBool.
-From LJT Require Import lib.Sweep gen.GenDctConst model.Quant proofs.QuantCert proofs.QuantSweep16a proofs.QuantSweep16b proofs.QuantSweep32a proofs.QuantSweep32b.
+From LJT Require Import lib.Sweep gen.GenDctConst model.Quant proofs.QuantCert proofs.QuantAlg.
 Import ListNotations.
 Local Open Scope Z_scope.
-
-Lemma compute_reciprocal_ext cf cf' d :
-  c_dw cf = c_dw cf' -> c_simd cf = c_simd cf' -> compute_reciprocal cf d = compute_reciprocal cf' d.
-Proof. intros H1 H2. unfold compute_reciprocal. rewrite H1, H2. reflexivity. Qed.
-
-Lemma quantize_recip_one_ext cf cf' rc x :
-  c_dw cf = c_dw cf' -> quantize_recip_one cf rc x = quantize_recip_one cf' rc x.
-Proof. intros H1. unfold quantize_recip_one. rewrite H1. reflexivity. Qed.
-
-(* the scale entry (the only place c_simd is looked at) does not influence quantize() *)
-Lemma compute_reciprocal_simd_irrel b m s d :
-  forall W, match compute_reciprocal (mkcfg b W m s) d, compute_reciprocal (mkcfg b W m (negb s)) d with
-  | Some r1, Some r2 => r_recip r1 = r_recip r2 /\ r_corr r1 = r_corr r2 /\ r_shift r1 = r_shift r2 /\ r_ret r1 = r_ret r2
-  | None, None => True
-  | _, _ => False
-  end.
-Proof.
-  intros W. unfold compute_reciprocal. cbn [c_dw c_simd].
-  destruct (wrapU 16 d =? 1); [cbn; auto|].
-  destruct (wrapU 16 d =? 0); [exact I|].
-  destruct (wrapU (2 * W) (Z.shiftl 1 (W + (flss (wrapU 16 d) - 1))) mod wrapU 16 d =? 0); [cbn; auto|].
-  destruct (wrapU (2 * W) (Z.shiftl 1 (W + (flss (wrapU 16 d) - 1))) mod wrapU 16 d <=? wrapU 16 d / 2); cbn; auto.
-Qed.
-
-Lemma quantize_recip_one_fields cf r1 r2 x :
-  r_recip r1 = r_recip r2 -> r_corr r1 = r_corr r2 -> r_shift r1 = r_shift r2 ->
-  quantize_recip_one cf r1 x = quantize_recip_one cf r2 x.
-Proof. intros A B C. unfold quantize_recip_one. rewrite A, B, C. reflexivity. Qed.
 
 Theorem reciprocal_exact_proof : forall cf d,
   (c_dw cf = 16 \/ c_dw cf = 32) -> 1 <= d <= 65535 ->
   exists rc, compute_reciprocal cf d = Some rc /\
     forall x, -32767 <= x <= 32767 -> quantize_recip_one cf rc x = rdiv x d.
 Proof.
-  intros cf d HW Hd.
-  (* the certified configuration with the same DCTELEM width *)
-  set (cf0 := if c_dw cf =? 16 then cf16 else cf32).
-  assert (Hdw : c_dw cf0 = c_dw cf) by (unfold cf0; destruct HW as [->| ->]; reflexivity).
-  assert (Hcert : recip_cert cf0 d = true).
-  { unfold cf0. destruct HW as [->| ->]; cbn [Z.eqb Pos.eqb].
-    - destruct (Z_lt_ge_dec d 32768).
-      + apply (sweep_sound _ _ _ recip_cert_16_a). lia.
-      + apply (sweep_sound _ _ _ recip_cert_16_b). lia.
-    - destruct (Z_lt_ge_dec d 32768).
-      + apply (sweep_sound _ _ _ recip_cert_32_a). lia.
-      + apply (sweep_sound _ _ _ recip_cert_32_b). lia. }
-  destruct (recip_cert_sound cf0 d) as [rc0 [Hrc0 Hq0]]; [rewrite Hdw; exact HW|lia|exact Hcert|].
-  (* same width, same or opposite c_simd *)
-  destruct cf as [b W m s]. cbn [c_dw] in *.
-  destruct cf0 as [b0 W0 m0 s0] eqn:Ecf0. cbn [c_dw] in Hdw. subst W0.
-  destruct (Bool.bool_dec s s0) as [->|Hs].
-  - rewrite (compute_reciprocal_ext (mkcfg b W m s0) (mkcfg b0 W m0 s0)) by reflexivity.
-    exists rc0. split; [exact Hrc0|]. intros x Hx.
-    rewrite (quantize_recip_one_ext (mkcfg b W m s0) (mkcfg b0 W m0 s0)) by reflexivity. apply Hq0; exact Hx.
-  - assert (s = negb s0) by (destruct s, s0; try reflexivity; exfalso; apply Hs; reflexivity). subst s.
-    pose proof (compute_reciprocal_simd_irrel b0 m0 s0 d W) as Hir. rewrite Hrc0 in Hir.
-    rewrite (compute_reciprocal_ext (mkcfg b W m (negb s0)) (mkcfg b0 W m0 (negb s0))) by reflexivity.
-    destruct (compute_reciprocal (mkcfg b0 W m0 (negb s0)) d) as [rc1|]; [|contradiction].
-    destruct Hir as [A [B [C _]]].
-    exists rc1. split; [reflexivity|]. intros x Hx.
-    rewrite (quantize_recip_one_ext (mkcfg b W m (negb s0)) (mkcfg b0 W m0 s0)) by reflexivity.
-    rewrite <- (quantize_recip_one_fields _ rc0 rc1 x A B C). apply Hq0; exact Hx.
+  intros cf d HW Hd. destruct (recip_facts_all cf d HW Hd) as [rc [Hrc Hf]].
+  exists rc. split; [exact Hrc|]. apply (recip_sound cf d rc HW); [lia|exact Hf].
 Qed.
 
 (* ---------------------------------------------------------------- round-half-up division *)
@@ -173,12 +119,7 @@ Theorem simd_quantize_exact_proof : forall cf d rc,
   forall x, -32767 <= x <= 32767 -> quantize_simd_one rc x = rdiv x d.
 Proof.
   intros cf d rc HW Hs Hd Hrc Hret.
-  assert (E : compute_reciprocal cf d = compute_reciprocal cf16 d)
-    by (apply compute_reciprocal_ext; [rewrite HW|rewrite Hs]; reflexivity).
-  rewrite E in Hrc.
-  apply (recip_cert_simd_sound cf16 d rc); try assumption; try reflexivity; try lia.
-  - left; reflexivity.
-  - destruct (Z_lt_ge_dec d 32768).
-    + apply (sweep_sound _ _ _ recip_cert_16_a). lia.
-    + apply (sweep_sound _ _ _ recip_cert_16_b). lia.
+  destruct (recip_facts_all cf d (or_introl HW) Hd) as [rc' [Hrc' Hf]].
+  rewrite Hrc in Hrc'. injection Hrc' as <-.
+  apply (recip_simd_sound cf d rc HW); [lia|exact Hf|exact Hs|exact Hret].
 Qed.
